@@ -67,6 +67,8 @@ func run(cmd string, args []string) error {
 		return nil
 	}
 
+	c16.EnableMetrics()
+
 	fx, err := c16.LoadFixtures(*fixtures)
 	if err != nil {
 		return err
